@@ -2,6 +2,7 @@ package harness
 
 import (
 	"bufio"
+	"sync"
 	"encoding/json"
 	"fmt"
 	"math/rand"
@@ -55,6 +56,30 @@ func TestHarness(t *testing.T) {
 		w.Flush()
 	}
 	r := rand.New(rand.NewSource(job.Seed))
+	// watchdog for the window-level Broadcaster cases: a goroutine stuck on a mutex is not "durably blocked",
+	// so the synctest bubble would wait for it forever
+	var curMu sync.Mutex
+	var curCase string
+	var curSince time.Time
+	setCur := func(v any) {
+		b, _ := json.Marshal(v)
+		curMu.Lock()
+		curCase, curSince = string(b), time.Now()
+		curMu.Unlock()
+	}
+	go func() {
+		for {
+			time.Sleep(time.Second)
+			curMu.Lock()
+			c, since := curCase, curSince
+			curMu.Unlock()
+			if c != "" && time.Since(since) > 25*time.Second {
+				w.Flush()
+				fmt.Printf("\nHANG-CASE %s ESAC-GNAH\n", c)
+				os.Exit(3)
+			}
+		}
+	}()
 	switch job.Family {
 	case "bcast-replay":
 		var cases []struct {
@@ -65,17 +90,22 @@ func TestHarness(t *testing.T) {
 			t.Fatal(err)
 		}
 		for _, c := range cases {
+			setCur(map[string]any{"progs": c.Progs, "schedule": c.Schedule})
 			emit(RunBcast(t, c.Progs, FixedChooser(c.Schedule)))
 		}
+		setCur(nil)
 	case "bcast-random":
 		for i := 0; i < job.N; i++ {
 			progs := GenBcastProgs(r, 4, job.Params["maxops"])
+			setCur(map[string]any{"progs": progs, "schedule": "random, seed " + fmt.Sprint(job.Seed) + " case " + fmt.Sprint(i)})
 			emit(RunBcast(t, progs, RandomChooser(r)))
 		}
+		setCur(nil)
 	case "bcast-explore":
 		// exhaustive schedules for random small programs
 		for i := 0; i < job.N; i++ {
 			progs := GenBcastProgs(r, 3, job.Params["maxops"])
+			setCur(map[string]any{"progs": progs, "schedule": "exhaustive exploration"})
 			n, complete := ExploreBcast(t, progs, job.Params["limit"], func(c BCase) { emit(c) })
 			emit(map[string]any{"explored": n, "complete": complete})
 		}
